@@ -543,7 +543,20 @@ func scratch() (dir string, cleanup func()) {
 	dir = filepath.Join(ev.Root(), ".work", fmt.Sprintf("watch-%d", os.Getpid()))
 	_ = os.MkdirAll(filepath.Join(dir, "d"), 0o755)
 	_ = os.WriteFile(filepath.Join(dir, "f"), []byte("x"), 0o644)
+	// what is on disk decides dir vs path (stat(2) follows links, as auditctl does)
+	_ = os.Symlink(filepath.Join(dir, "d"), filepath.Join(dir, "ld")) // link to a directory
+	_ = os.Symlink(filepath.Join(dir, "f"), filepath.Join(dir, "lf")) // link to a file
+	_ = os.Symlink(filepath.Join(dir, "nope"), filepath.Join(dir, "ldangling"))
+	_ = os.Symlink(filepath.Join(dir, "lloop"), filepath.Join(dir, "lloop"))        // ELOOP
+	_ = os.Symlink(filepath.Join(dir, "f", "below"), filepath.Join(dir, "lnotdir")) // ENOTDIR
+	_ = os.Symlink("ld", filepath.Join(dir, "lld"))                                 // link to a link to a directory
 	return dir, func() { _ = os.RemoveAll(dir) }
+}
+
+var watchKinds = map[string]string{"file": "f", "dir": "d", "missing": "nope", "link-to-dir": "ld", "link-to-file": "lf", "dangling-link": "ldangling", "link-loop": "lloop", "link-below-file": "lnotdir", "link-to-link-to-dir": "lld"}
+
+func watchIsDir(kind string) bool {
+	return kind == "dir" || kind == "link-to-dir" || kind == "link-to-link-to-dir"
 }
 
 func forWatchSpecs(c *enumx.Ctx, dir string, visit func(c *enumx.Ctx, w watchSpec)) {
@@ -559,8 +572,13 @@ func forWatchSpecs(c *enumx.Ctx, dir string, visit func(c *enumx.Ctx, w watchSpe
 		perms = append(perms, s)
 	}
 	perms = append(perms, "ar", "xwr", "rr")
-	for _, kind := range []string{"file", "dir", "missing"} {
-		path := filepath.Join(dir, map[string]string{"file": "f", "dir": "d", "missing": "nope"}[kind])
+	var kinds []string
+	for k := range watchKinds {
+		kinds = append(kinds, k)
+	}
+	sort.Strings(kinds)
+	for _, kind := range kinds {
+		path := filepath.Join(dir, watchKinds[kind])
 		for _, p := range perms {
 			for nk := 0; nk <= 2; nk++ {
 				if !c.Mine() {
@@ -594,7 +612,7 @@ func checkWatchEncoding(c *enumx.Ctx, ws watchSpec) {
 			return
 		}
 		fieldWant := uapi("AUDIT_WATCH")
-		if ws.Kind == "dir" {
+		if watchIsDir(ws.Kind) {
 			fieldWant = uapi("AUDIT_DIR")
 		}
 		permWant, _ := expectedValue("perm", ws.Perms)
